@@ -76,6 +76,8 @@ theorem Framer.build_ok (f : Framer) (fl op : UInt8) (s : Int) (body wire : Byte
         | ok z =>
           simp only [he] at h
           refine ⟨c, z, rfl, he, ?_⟩
+          split at h
+          · cases h
           injection h with h
           have hlen : (f.writeHeader fl op s ++ z).length - f.headSize = z.length := by
             simp [hl]
@@ -90,6 +92,22 @@ theorem Framer.build_ok (f : Framer) (fl op : UInt8) (s : Int) (body wire : Byte
         simp [hl]
       rw [← h, hlen, f.writeHeader_eq, f.setLength_hdr]
       simp [Framer.frame]
+
+/-- after the repair of KF-C18-2: a compressed frame that was built fits the limit -/
+theorem Framer.build_ok_fits (f : Framer) (fl op : UInt8) (s : Int) (body wire : Bytes) (c : Codec) (z : Bytes)
+    (h : f.build fl op s body = .ok wire) (hfl : fl &&& flagCompress = flagCompress)
+    (hcomp : f.comp = some c) (henc : c.enc body = .ok z) : f.headSize + z.length ≤ maxFrameSize := by
+  unfold Framer.build Framer.finish at h
+  rw [f.flag_of_buf] at h
+  obtain ⟨_, hd⟩ := f.split_buf fl op s body
+  split at h
+  · cases h
+  · simp only [hfl, beq_self_eq_true, if_true] at h
+    rw [hd] at h
+    simp only [hcomp, henc] at h
+    split at h
+    · cases h
+    · omega
 
 end Compress
 
